@@ -39,23 +39,15 @@ Proof.
   rewrite Hok. destruct rest; [discriminate|]. reflexivity.
 Qed.
 
-Lemma resolve_untagged : forall c n inner pastmod,
-  resolve c n = option_map fst (resolve_tagged inner pastmod c n).
+Lemma resolve_untagged : forall c n inner,
+  resolve c n = option_map fst (resolve_tagged inner c n).
 Proof.
-  induction c as [|f rest IH]; intros n inner pastmod; simpl; [reflexivity|].
+  induction c as [|f rest IH]; intros n inner; simpl; [reflexivity|].
   destruct (g_bind f rest n); [reflexivity|].
+  destruct (is_module f); [reflexivity|].
   destruct rest as [|g r]; [reflexivity|].
   destruct (String.eqb n (fname g) && negb (is_module g)); [reflexivity|].
   apply IH.
-Qed.
-
-Lemma pastmod_tag : forall c n inner p t, resolve_tagged inner true c n = Some (p, t) -> t = TPkgLeak.
-Proof.
-  induction c as [|f rest IH]; intros n inner p t H; simpl in H; [discriminate|].
-  destruct (g_bind f rest n); [now inversion H|].
-  destruct rest as [|g r]; [discriminate|].
-  destruct (String.eqb n (fname g) && negb (is_module g)); [now inversion H|].
-  simpl orb in H. exact (IH _ _ _ _ H).
 Qed.
 
 Lemma path_of_cons : forall f g r, path_of (f :: g :: r) = path_of (g :: r) +++ "." +++ fname f.
@@ -64,7 +56,7 @@ Proof. reflexivity. Qed.
 (* ---------------------------------------------------------------- the walk agrees with CPython where it stops at a
    scope CPython consults, and finds nothing only if CPython finds nothing *)
 Definition agrees (inner : bool) (c : chain) (n : string) : Prop :=
-  match resolve_tagged inner false c n with
+  match resolve_tagged inner c n with
   | Some (p, TOk) => py_scan inner c n = Some p
   | Some (_, _) => True
   | None => py_scan inner c n = None
@@ -114,25 +106,20 @@ Proof.
     + destruct inner; simpl; [now rewrite <- GB | exact I].
     + now rewrite <- GB.
   - symmetry in GB.
-    destruct rest as [|g r].
-    + simpl. rewrite GB. destruct (fkind f); destruct inner; reflexivity.
-    + destruct (String.eqb n (fname g) && negb (is_module g)) eqn:O.
-      * (* name == self.parent.name and the parent is not a module *)
-        apply andb_true_iff in O as [On Og]. apply String.eqb_eq in On. apply negb_true_iff in Og.
-        destruct r as [|h r']; [exact I|].
-        destruct (is_class h) eqn:Ch; [exact I|].
-        assert (Kf : is_module f = false).
-        { unfold frame_ok in Hf. unfold is_module. destruct (fkind f); try reflexivity. congruence. }
-        assert (Hstep : py_scan inner (f :: g :: h :: r') n = py_scan false (g :: h :: r') n).
-        { unfold is_module in Kf. simpl. simpl in GB. rewrite GB.
-          destruct (fkind f); [discriminate | destruct inner; reflexivity | reflexivity]. }
-        rewrite Hstep. apply own_name_python; auto.
-      * simpl orb.
-        destruct (is_module f) eqn:Mf.
-        -- (* f is the nearest module: anything found further out is tagged as a package leak *)
-           destruct (resolve_tagged false true (g :: r) n) as [[p t]|] eqn:R.
-           ++ apply pastmod_tag in R. subst t. exact I.
-           ++ unfold is_module in Mf. simpl. simpl in GB. destruct (fkind f); try discriminate. exact GB.
+    destruct (is_module f) eqn:Mf.
+    + (* the nearest module ends the walk, as it ends CPython's static scopes *)
+      unfold is_module in Mf. simpl. simpl in GB. destruct (fkind f); try discriminate. exact GB.
+    + destruct rest as [|g r].
+      * simpl. rewrite GB. destruct (fkind f); destruct inner; reflexivity.
+      * destruct (String.eqb n (fname g) && negb (is_module g)) eqn:O.
+        -- (* name == self.parent.name and the parent is not a module *)
+           apply andb_true_iff in O as [On Og]. apply String.eqb_eq in On. apply negb_true_iff in Og.
+           destruct r as [|h r']; [exact I|].
+           destruct (is_class h) eqn:Ch; [exact I|].
+           assert (Hstep : py_scan inner (f :: g :: h :: r') n = py_scan false (g :: h :: r') n).
+           { unfold is_module in Mf. simpl. simpl in GB. rewrite GB.
+             destruct (fkind f); [discriminate | destruct inner; reflexivity | reflexivity]. }
+           rewrite Hstep. apply own_name_python; auto.
         -- specialize (IH n false Hrest). unfold agrees in IH.
            assert (Hstep : py_scan inner (f :: g :: r) n = py_scan false (g :: r) n).
            { unfold is_module in Mf. simpl. simpl in GB. rewrite GB.
@@ -141,25 +128,25 @@ Proof.
 Qed.
 
 Theorem resolve_eq_python_modulo_known : forall c n,
-  wf_chain c = true -> gap_class c n = false -> gap_package c n = false ->
+  wf_chain c = true -> gap_class c n = false ->
   resolve c n = py_lookup c n.
 Proof.
-  intros c n Hwf G1 G2.
+  intros c n Hwf G1.
   pose proof (walk_agrees c n true Hwf) as A. unfold agrees in A.
-  rewrite (resolve_untagged c n true false). unfold py_lookup.
-  unfold gap_class, gap_package, tag_of in *.
-  destruct (resolve_tagged true false c n) as [[p t]|]; simpl in *.
+  rewrite (resolve_untagged c n true). unfold py_lookup.
+  unfold gap_class, tag_of in *.
+  destruct (resolve_tagged true c n) as [[p t]|]; simpl in *.
   - destruct t; try discriminate. now rewrite A.
   - now rewrite A.
 Qed.
 
 Theorem canonical_eq_python_modulo_known : forall local c n,
-  wf_chain c = true -> gap_class c n = false -> gap_package c n = false -> gap_local local c n = false ->
+  wf_chain c = true -> gap_class c n = false -> gap_local local c n = false ->
   canonical c n = py_canonical local c n.
 Proof.
-  intros local c n Hwf G1 G2 G3.
+  intros local c n Hwf G1 G3.
   unfold canonical, py_canonical, gap_local in *.
-  rewrite <- (resolve_eq_python_modulo_known c n Hwf G1 G2).
+  rewrite <- (resolve_eq_python_modulo_known c n Hwf G1).
   destruct local; simpl in *; [|reflexivity].
   destruct (resolve c n); [discriminate | reflexivity].
 Qed.
@@ -169,8 +156,8 @@ Definition w_m  := mkFrame KModule "m" [("x", MObj); ("A", MObj)] [].
 Definition w_A  := mkFrame KClass "A" [("x", MObj); ("B", MObj)] [].
 Definition w_B  := mkFrame KClass "B" [("y", MObj)] [].
 Lemma outer_class_leak_refuted :
-  exists c n, wf_chain c = true /\ gap_package c n = false /\ resolve c n <> py_lookup c n.
-Proof. exists [w_B; w_A; w_m], "x". repeat split; try reflexivity. vm_compute. discriminate. Qed.
+  exists c n, wf_chain c = true /\ resolve c n <> py_lookup c n.
+Proof. exists [w_B; w_A; w_m], "x". split; [reflexivity|]. vm_compute. discriminate. Qed.
 
 Example outer_class_leak_values :
   resolve [w_B; w_A; w_m] "x" = Some "m.A.x" /\ py_lookup [w_B; w_A; w_m] "x" = Some "m.x" /\ gap_class [w_B; w_A; w_m] "x" = true.
@@ -179,26 +166,31 @@ Proof. vm_compute. repeat split. Qed.
 Definition w_init := mkFrame KFunction "__init__" [] ["self"; "p"].
 Definition w_A2 := mkFrame KClass "A" [("x", MObj); ("__init__", MObj)] [].
 Lemma method_body_leak_refuted :
-  exists c n, wf_chain c = true /\ gap_package c n = false /\ resolve c n <> py_lookup c n.
-Proof. exists [w_init; w_A2; w_m], "x". repeat split; try reflexivity. vm_compute. discriminate. Qed.
+  exists c n, wf_chain c = true /\ resolve c n <> py_lookup c n.
+Proof. exists [w_init; w_A2; w_m], "x". split; [reflexivity|]. vm_compute. discriminate. Qed.
 
 Definition w_pkg := mkFrame KModule "pkg" [("X", MObj); ("m", MObj)] [].
 Definition w_sub := mkFrame KModule "m" [("y", MObj)] [].
-Lemma parent_package_leak_refuted :
-  exists c n, wf_chain c = true /\ gap_class c n = false /\ resolve c n <> py_lookup c n.
-Proof. exists [w_sub; w_pkg], "X". repeat split; try reflexivity. vm_compute. discriminate. Qed.
+(* a module is the last scope consulted: it answers from its own members or raises (C04-F2 repaired) *)
+Theorem module_is_last_scope : forall f rest n, is_module f = true ->
+  resolve (f :: rest) n = match lookup n (fmembers f) with Some m => Some (member_path (f :: rest) n m) | None => None end.
+Proof.
+  intros f rest n H. simpl. rewrite g_bind_nonfunction by (unfold is_module, is_function in *; destruct (fkind f); congruence).
+  destruct (lookup n (fmembers f)); [reflexivity|]. now rewrite H.
+Qed.
 
-Example parent_package_leak_values :
-  resolve [w_sub; w_pkg] "X" = Some "pkg.X" /\ py_lookup [w_sub; w_pkg] "X" = None /\ gap_package [w_sub; w_pkg] "X" = true.
+(* the former witness of C04-F2 (repaired): the parent package is no longer consulted *)
+Example parent_package_not_in_scope :
+  resolve [w_sub; w_pkg] "X" = None /\ py_lookup [w_sub; w_pkg] "X" = None /\ canonical [w_sub; w_pkg] "X" = "X".
 Proof. vm_compute. repeat split. Qed.
 
 Lemma local_binder_refuted :
-  exists c n, wf_chain c = true /\ gap_class c n = false /\ gap_package c n = false /\ canonical c n <> py_canonical true c n.
+  exists c n, wf_chain c = true /\ gap_class c n = false /\ canonical c n <> py_canonical true c n.
 Proof. exists [w_m], "x". repeat split; try reflexivity. vm_compute. discriminate. Qed.
 
 (* the hypotheses of the modulo-known theorem are satisfiable with a non-trivial answer at every kind of frame *)
 Example modulo_known_nonvacuous_class :
-  wf_chain [w_B; w_A; w_m] = true /\ gap_class [w_B; w_A; w_m] "A" = false /\ gap_package [w_B; w_A; w_m] "A" = false
+  wf_chain [w_B; w_A; w_m] = true /\ gap_class [w_B; w_A; w_m] "A" = false
   /\ resolve [w_B; w_A; w_m] "A" = Some "m.A".
 Proof. vm_compute. repeat split. Qed.
 Example modulo_known_nonvacuous_param :
@@ -235,7 +227,8 @@ Proof.
   induction c as [|f rest IH]; intros n p H; simpl in H; [discriminate|].
   destruct (g_bind f rest n) eqn:G.
   - inversion H; subst. now apply g_bind_justified.
-  - destruct rest as [|g r]; [discriminate|].
+  - destruct (is_module f); [discriminate|].
+    destruct rest as [|g r]; [discriminate|].
     destruct (String.eqb n (fname g) && negb (is_module g)) eqn:O.
     + inversion H; subst. apply andb_true_iff in O as [On Og].
       apply String.eqb_eq in On. apply negb_true_iff in Og.
@@ -252,12 +245,15 @@ Qed.
 
 Lemma resolve_none_unbound : forall c n, resolve c n = None -> unbound c n.
 Proof.
+  unfold unbound.
   induction c as [|f rest IH]; intros n H g Hin; [destruct Hin|].
   simpl in H. destruct (g_bind f rest n) eqn:G; [discriminate|].
-  destruct Hin as [<-|Hin]; [eapply g_bind_none_lookup; eauto|].
-  destruct rest as [|g0 r]; [destruct Hin|].
-  destruct (String.eqb n (fname g0) && negb (is_module g0)); [discriminate|].
-  now apply (IH n H).
+  simpl in Hin. destruct (is_module f) eqn:Mf.
+  - destruct Hin as [<-|[]]. eapply g_bind_none_lookup; eauto.
+  - destruct Hin as [<-|Hin]; [eapply g_bind_none_lookup; eauto|].
+    destruct rest as [|g0 r]; [destruct Hin|].
+    destruct (String.eqb n (fname g0) && negb (is_module g0)); [discriminate|].
+    now apply (IH n H).
 Qed.
 
 (* every call ends with a path some definition/import/parameter on the parent chain justifies, or with the (caught)
@@ -280,6 +276,7 @@ Proof.
   { induction c as [|f rest IH]; [reflexivity|]. simpl.
     destruct (H f (or_introl eq_refl)) as (L & P & _).
     unfold g_bind. rewrite L, P. rewrite andb_false_r.
+    destruct (is_module f); [reflexivity|].
     destruct rest as [|g r]; [reflexivity|].
     destruct (H g (or_intror (or_introl eq_refl))) as (_ & _ & Ng).
     destruct (String.eqb_spec n (fname g)); [congruence|]. simpl.
